@@ -109,8 +109,11 @@ def class_of(node):
     return None
 
 
+ANYALL = CharClass.get(("anyall",), lambda c, al=None: True)
+
+
 class Program(object):
-    def __init__(self, pattern, flags=0):
+    def __init__(self, pattern, flags=0, search=False):
         if isinstance(pattern, bytes):
             raise Unsupported("bytes pattern")
         if flags & ~re.UNICODE:
@@ -126,6 +129,15 @@ class Program(object):
         self.groups = tree.state.groups - 1
         self.groupindex = dict(tree.state.groupdict)
         self.mandatory = set()      # groups that are set on every successful match
+        self.search = search
+        if search:
+            # re.search: the leftmost start at which the pattern matches = a lazy any-character prefix
+            sp0 = self._emit("split", None, None)
+            body = len(self.prog)
+            self._emit("char", ANYALL)
+            self._emit("jmp", sp0)
+            self.prog[sp0][1], self.prog[sp0][2] = len(self.prog), body
+            self._emit("save", 0)
         self._comp(tree, True)
         self._emit("match")
         self.order = self._eps_order()
@@ -229,10 +241,10 @@ class Program(object):
 _PROGS = {}
 
 
-def program(pattern, flags=0):
-    k = (pattern, flags)
+def program(pattern, flags=0, search=False):
+    k = (pattern, flags, search)
     if k not in _PROGS:
-        _PROGS[k] = Program(pattern, flags)
+        _PROGS[k] = Program(pattern, flags, search)
     return _PROGS[k]
 
 
@@ -335,6 +347,12 @@ class Enc(object):
         p, e = self._slot(2 * g + 1)
         return p, s, e
 
+    def start(self):
+        """start of the whole match (0 for match(), the leftmost matching position for search())"""
+        if not self.P.search:
+            return 0
+        return self._slot(0)[1]
+
     def end(self):
         V = self.visits()
         pc = len(self.prog) - 1
@@ -363,4 +381,17 @@ def check_against_re(pattern, text, maxlen=None):
             else:
                 assert p is True and (s, e) == m.span(g), ("span", pattern, text, g, s, e, m.span(g))
         assert enc.end() == m.end(), ("end", pattern, text, enc.end(), m.end())
+    # re.search
+    progs = program(pattern, 0, True)
+    encs = Enc(progs, a)
+    ms = cre.search(text)
+    assert encs.matched() == (ms is not None), ("search", pattern, text, encs.matched(), ms)
+    if ms is not None:
+        assert (encs.start(), encs.end()) == ms.span(), ("search span", pattern, text, encs.start(), encs.end(), ms.span())
+        for g in range(1, cre.groups + 1):
+            p, s_, e = encs.group(g)
+            if ms.group(g) is None:
+                assert p is False, ("search group absent", pattern, text, g)
+            else:
+                assert p is True and (s_, e) == ms.span(g), ("search group", pattern, text, g, s_, e, ms.span(g))
     return m is not None
